@@ -237,6 +237,9 @@ func scenC11(c *ctx) {
 			c.rec.Release()
 		}
 	}
+	// concurrent secret generation meeting inside the (substituted) random source: a call's secret is made of the
+	// bytes that call took, not of another call's
+	c.randGated("C11", c.n(5, 40))
 	obs.off = false
 	_ = otp.SHA1
 }
